@@ -563,7 +563,7 @@ def _make_meta_call_wrapper(cls):
   cls_meta = type(cls)
 
   @functools.wraps(cls_meta.__call__)
-  def meta_call_wrapper(new_cls, *args, **kwargs):
+  def meta_call_wrapper(new_cls, /, *args, **kwargs):
     # If `new_cls` (the to-be-created class) is a direct subclass of `cls`, we
     # can be sure that it's Gin's dynamically created subclass. In this case,
     # we directly create an instance of `cls` instead. Otherwise, some further
